@@ -254,3 +254,46 @@ def run(report, prop, configs):
     report.extra["vocabulary_entries"] = total_entries
     report.extra["distinct_instances"] = distinct
     return total_entries
+
+
+def storage_conversions(report, cfg):
+    """R13.3: the storage types' own conversions (From impls, new128/split128, Default) are the identity
+    on the flat little-endian layout, identically on the x86 and the portable backend."""
+    f = facts.load(cfg, "ppv_lite86")
+    n = 0
+    for r in f.roots:
+        key = r["inst"]
+        inst = f.instances[key]
+        body = inst.get("body")
+        if not body:
+            continue
+        m = re.search(r"(?:as core::convert::From<.*>>::from|::new128|::split128|as core::default::Default>::default)$", key)
+        if not m or "storage" not in key:
+            continue
+        atys = body["locals"][1:1 + body["arg_count"]]
+        rty = body["locals"][0]
+        kinds = [f.types[t]["kind"] for t in atys + [rty]]
+        if any(k in ("ref", "rawptr") for k in kinds):
+            continue
+        ikey = "ppv_lite86::%s@%s" % (key, cfg)
+        n += 1
+        bv.reset()
+        it = Interp(f, MODELS)
+        try:
+            args = [it.from_bits(bv.inp("x%d" % i, it.ty.size_bits(t)), t) for i, t in enumerate(atys)]
+            ret = it.call_instance(key, args)
+            got = it.to_bits(ret, rty)
+            exp = bv.concat(bv.inp("x%d" % i, it.ty.size_bits(t)) for i, t in enumerate(atys)) if atys else bv.const(0, it.ty.size_bits(rty))
+            if len(got) != len(exp):
+                report.violated("R13.3", ikey, "%s changes the size of the data (%d -> %d bits)" % (key, len(exp), len(got)))
+            elif got != exp:
+                i = bv.first_diff(got, exp)
+                report.violated("R13.3", ikey, "%s is not the identity on the little-endian flat layout: bit %d is %s" % (key, i, bv.show_bit(got[i])),
+                                graphs=(got, exp))
+            else:
+                report.ok("R13.3", ikey, sample={"conversion": key, "config": cfg} if n <= 2 else None)
+        except Diverge as d:
+            report.violated("R13.3", ikey, "%s panics: %s" % (key, d.site[:2]))
+        except Undecided as e:
+            report.undecide("R13.3", ikey, str(e))
+    return n
